@@ -9,7 +9,8 @@ Additionally the two functions that decide UNKNOWN are tied directly:
   quantified_formula_might_match (incl. already_matched sets, match expressions) <-> qmm3,
   GrammarGraph.reachable <-> reachb on all pairs of nonterminals, reach_closedb g (premise of the
   reachability theorem) evaluated for every grammar.
-A definite-verdict flip that belongs to an open known-finding class (K_selfrec_open, K_nth_open;
+A definite-verdict flip that belongs to an open known-finding class (K_selfrec_open, K_nth_open,
+K_count_insert, K_cons_rel_open;
 the class predicates are evaluated in Coq and compared with their Python mirrors) prints
 KNOWN-FINDING; any other flip is a VIOLATION."""
 import base64
@@ -95,6 +96,24 @@ def py_kselfrec(graph, t, f):
 
 def py_knth(t, f):
     return "nth" in pred_names(f) and t.is_open()
+
+
+def py_cons_unsafe(t):
+    """mirror of Eval3Preds.cons_unsafe: an open leaf at o = c ++ q (c, q non-empty), the node at c has
+    at least two children, q and c prefix-comparable as lists"""
+    def pre(a, b):
+        return b[:len(a)] == a
+    for o, _ in t.open_leaves():
+        for k in range(1, len(o)):
+            c, q = o[:k], o[k:]
+            if len(t.get_subtree(c).children or ()) > 1 and (pre(q, c) or pre(c, q)):
+                return True
+    return False
+
+
+def py_kconsopen(t, f):
+    """mirror of Eval3Stable2.K_cons_rel_open (checked against Coq on every case)"""
+    return "consecutive" in pred_names(f) and py_cons_unsafe(t)
 
 
 def start_only_atom(ast):
@@ -328,15 +347,15 @@ def replay_known(run):
             run.known(e["what"])
 
 
-IMPORTS = "Eval3"
+IMPORTS = "Eval3 Eval3Preds Eval3Stable2"
 CST_DEF = f"Definition CST := {g_var(START)}.\n"
-OK_DEF = ("fun c : nat * formula atom * res TV * res TV * bool * bool * bool => "
-          "let '(k, f, ev, ev', ks, kn, kc) := c in let '(G, T, T') := nth k ENV ([], DUMMY, DUMMY) in "
+OK_DEF = ("fun c : nat * formula atom * res TV * res TV * bool * bool * bool * bool => "
+          "let '(k, f, ev, ev', ks, kn, kc, kco) := c in let '(G, T, T') := nth k ENV ([], DUMMY, DUMMY) in "
           "let skip := fun r : res TV => match r with Raise NotImpl => true | _ => false end in "
           "let m := m3_evaluate G T CST (lift3 f) in let m' := m3_evaluate G T' CST (lift3 f) in "
           "(skip m || res_eqb tv_eqb m ev) && (skip m' || res_eqb tv_eqb m' ev') "
           "&& Bool.eqb (m3_kselfrec G T (lift3 f)) ks && Bool.eqb (m3_knth T (lift3 f)) kn "
-          "&& Bool.eqb (m3_kcount G T (lift3 f)) kc")
+          "&& Bool.eqb (m3_kcount G T (lift3 f)) kc && Bool.eqb (K_cons_rel_open atom3 T (lift3 f)) kco")
 # direct tie of quantified_formula_might_match
 OK_QMM = ("fun c : nat * var * path * option mexpr * list N * path * bool => "
           "let '(k, v, ip, m, am, leaf, r) := c in let '(G, T, _) := nth k ENV ([], DUMMY, DUMMY) in "
@@ -434,6 +453,7 @@ def run(run):
                     timeouts.append({"grammar": gname, "open": str(t), "closed": str(tp), "formula": str(fobj)})
                     continue
                 ks, kn, kc = py_kselfrec(graph, t, fobj), py_knth(t, fobj), py_kcount(graph, t, fobj)
+                kco = py_kconsopen(t, fobj)
                 hist["open_" + (r[1] if r[0] == "ok" else "raise")] += 1
                 hist["closed_" + (rp[1] if rp[0] == "ok" else "raise")] += 1
                 definite = r[0] == "ok" and r[1] != "UU"
@@ -447,7 +467,8 @@ def run(run):
                 meta = {"grammar": gname, "tree_open": tree_json(t), "tree_closed": tree_json(tp),
                         "open": str(t), "closed": str(tp), "cuts": sorted(map(list, cuts)),
                         "formula": str(fobj), "verdict_open": r, "verdict_closed": rp,
-                        "K_selfrec_open": ks, "K_nth_open": kn, "K_count_insert": kc, "key": key, "definite": definite}
+                        "K_selfrec_open": ks, "K_nth_open": kn, "K_count_insert": kc, "K_cons_rel_open": kco,
+                        "key": key, "definite": definite}
                 try:
                     meta["ast_pickle"] = base64.b64encode(pickle.dumps(ast)).decode()
                 except Exception:
@@ -456,7 +477,7 @@ def run(run):
                     flips.append(meta)
                 try:
                     lit = g_formula(fobj, g)
-                    cs.append(f"({env_idx}%nat, {lit}, {g_out_tv(r)}, {g_out_tv(rp)}, {g_bool(ks)}, {g_bool(kn)}, {g_bool(kc)})")
+                    cs.append(f"({env_idx}%nat, {lit}, {g_out_tv(r)}, {g_out_tv(rp)}, {g_bool(ks)}, {g_bool(kn)}, {g_bool(kc)}, {g_bool(kco)})")
                     ms.append(meta)
                 except Unencodable as e:
                     hist["unencodable"] += 1
@@ -555,7 +576,8 @@ def run(run):
     unknown = []
     for m in flips:
         cls = ("K_selfrec_open" if m["K_selfrec_open"] else "K_nth_open" if m["K_nth_open"]
-               else "K_count_insert" if m["K_count_insert"] else None)
+               else "K_count_insert" if m["K_count_insert"]
+               else "K_cons_rel_open" if m.get("K_cons_rel_open") else None)
         if cls and cls in known:
             run.known(known[cls]["what"])
             hist["flips_known"] += 1
